@@ -373,7 +373,7 @@ impl Sbrm {
         sbrm_addr: u64,
     ) -> ControlResult<Self> {
         let (capability_offset, capability_len) = sbrm::U3VCP_CAPABILITY_REGISTER;
-        let capability_addr = capability_offset + sbrm_addr;
+        let capability_addr = register_address(sbrm_addr, capability_offset)?;
         let capability = read_register(device, capability_addr, capability_len)?;
 
         Ok(Self {
@@ -531,7 +531,7 @@ impl Sbrm {
         Ctrl: DeviceControl + ?Sized,
     {
         let (offset, len) = register;
-        let addr = offset + self.sbrm_addr;
+        let addr = register_address(self.sbrm_addr, offset)?;
         read_register(device, addr, len)
     }
 }
@@ -755,7 +755,7 @@ impl Sirm {
         Ctrl: DeviceControl + ?Sized,
     {
         let (offset, len) = register;
-        let addr = offset + self.sirm_addr;
+        let addr = register_address(self.sirm_addr, offset)?;
         read_register(device, addr, len)
     }
 
@@ -766,7 +766,7 @@ impl Sirm {
         data: impl DumpBytes,
     ) -> ControlResult<()> {
         let (offset, len) = register;
-        let addr = self.sirm_addr + offset;
+        let addr = register_address(self.sirm_addr, offset)?;
         let mut buf = vec![0; len as usize];
         data.dump_bytes(&mut buf)?;
         device.write(addr, &buf)
@@ -793,7 +793,18 @@ impl ManifestTable {
         device: &mut Ctrl,
     ) -> ControlResult<impl Iterator<Item = ManifestEntry>> {
         let entry_num: u64 = self.read_register(device, (0, 8))?;
-        let first_entry_addr = self.manifest_address + 8;
+        let first_entry_addr = register_address(self.manifest_address, 8)?;
+        // All entries must be located inside the address space.
+        if let Some(last_entry) = entry_num.checked_sub(1) {
+            last_entry
+                .checked_mul(64)
+                .and_then(|offset| first_entry_addr.checked_add(offset))
+                .ok_or_else(|| {
+                    ControlError::InvalidDevice(
+                        "manifest table exceeds the 64 bit address space".into(),
+                    )
+                })?;
+        }
 
         Ok((0..entry_num).map(move |i| ManifestEntry::new(first_entry_addr + i * 64)))
     }
@@ -807,7 +818,8 @@ impl ManifestTable {
         T: ParseBytes,
     {
         let (offset, len) = register;
-        read_register(device, offset + self.manifest_address, len)
+        let addr = register_address(self.manifest_address, offset)?;
+        read_register(device, addr, len)
     }
 }
 
@@ -870,7 +882,7 @@ impl ManifestEntry {
     ) -> ControlResult<Option<[u8; 20]>> {
         // We don't use `self.read_register` here for perf.
         let mut sha1_hash: [u8; 20] = [0; 20];
-        let addr = self.entry_addr + manifest_entry::SHA1_HASH.0;
+        let addr = register_address(self.entry_addr, manifest_entry::SHA1_HASH.0)?;
         device.read(addr, &mut sha1_hash)?;
 
         // All bytes are 0 in case the hash is not available.
@@ -887,9 +899,16 @@ impl ManifestEntry {
         Ctrl: DeviceControl + ?Sized,
     {
         let (offset, len) = register;
-        let addr = offset + self.entry_addr;
+        let addr = register_address(self.entry_addr, offset)?;
         read_register(device, addr, len)
     }
+}
+
+/// Returns the address of the register located at `offset` from `base`.
+fn register_address(base: u64, offset: u64) -> ControlResult<u64> {
+    base.checked_add(offset).ok_or_else(|| {
+        ControlError::InvalidDevice("register address exceeds the 64 bit address space".into())
+    })
 }
 
 /// Reads and parses register value.
